@@ -112,7 +112,7 @@ class Program:
             elif op == "expand":
                 fn = lambda: s.expand_by(objs, inplace=inplace)
             elif op == "insert":
-                i = rnd.randint(0, len(s))
+                i = rnd.randint(-len(s) - 1, len(s) + 1)      # (Python list.insert semantics: negative / out-of-range positions)
                 self.record({"op": op, "recv": recv, "dst": dst, "inplace": inplace, "d": ds, "i": i}, lambda: s.insert(i, objs[0], inplace=inplace))
                 return
             else:
